@@ -287,7 +287,7 @@ def run_shard(ctx):
 
     @given(st.one_of(width_cases(), maxerr_cases(max_nodes), retry_cases(max_nodes)))
     def test(case):
-        check_case(ctx, case)
+        runner.guarded(ctx, check_case, case)
 
     runner.drive(ctx, test, ctx.n(6400, 100000))
 
